@@ -2139,7 +2139,11 @@ def compare_model(corpus, line, impl_text, model_text):
             mv = ref_decode(msg, m["E"])
         except RefError as e:
             return "model's E is not valid wire format: %s" % e.cls
-        if len(m["E"]) != len(o.E) or compare(mv, ref_decode(msg, o.E)) or not _multi_map(msg, mv):
+        try:
+            ov = ref_decode(msg, o.E)
+        except RefError as e:
+            return "the implementation's re-encoding E is not valid wire format: %s" % e.cls
+        if len(m["E"]) != len(o.E) or compare(mv, ov) or not _multi_map(msg, mv):
             return "E differs"
     return None
 
